@@ -27,10 +27,10 @@ class Axis:
 
 class MAxis:
     masked = True
-    ncomp = 2
 
     def __init__(self, mask, count=None):
         self.mask = mask
+        self.ncomp = mask.ndim
         if count is None:
             count = mask.count_true()
         self.size = num(count)
@@ -356,14 +356,11 @@ class Arr:
                 for d in range(k.ndim):
                     if not same_num(self.axes[ai + d].size, k.axes[d].size):
                         raise IndexError("boolean index did not match indexed array")
-                if k.ndim == 2:
+                if k.ndim in (1, 2):
                     k.as_mask()
                     new_axes.append(MAxis(k))
-                    plan.append(("mask2", len(new_axes) - 1))
-                    ai += 2
-                elif k.ndim == 1:
-                    plan.append(("mask1", k))
-                    ai += 1
+                    plan.append(("mask2", len(new_axes) - 1, k.ndim))
+                    ai += k.ndim
                 else:
                     raise Undecided("mask rank")
             elif isinstance(k, Arr):
@@ -408,8 +405,8 @@ class Arr:
                 elif p[0] == "fancy":
                     out.append(num(p[2].at(c[offs[p[1]]])))
                 elif p[0] in ("mask2", "keepmask"):
-                    out.append(c[offs[p[1]]])
-                    out.append(c[offs[p[1]] + 1])
+                    d = new_axes[p[1]].ncomp
+                    out.extend(c[offs[p[1]]:offs[p[1]] + d])
             return tuple(out)
         return m
 
@@ -428,8 +425,7 @@ class Arr:
         for p in plan:
             if p[0] == "fancy":
                 engine().fancy_index_check(p[2], p[3])
-            if p[0] == "mask1":
-                raise Undecided("read through a 1-D boolean mask")
+            pass
         if not new_axes:
             return self.at(*m(()))
         src = self
@@ -452,8 +448,7 @@ class Arr:
         for p in plan:
             if p[0] in ("fancy", "new"):
                 raise Undecided("fancy-index / newaxis store")
-            if p[0] == "mask1" and isinstance(val, Arr):
-                raise Undecided("array-valued store through a 1-D boolean mask")
+            pass
         old_fn = self._fn
         old = Arr(self.axes, old_fn, self.dtype)
         old._memo = self._memo
@@ -498,17 +493,16 @@ class Arr:
                     pos += 1
                 elif p[0] == "mask2":
                     mk = new_axes[p[1]].mask
-                    cond = cond & sbool(mk.at(c[pos], c[pos + 1]))
-                    newc[offs[p[1]]] = c[pos]
-                    newc[offs[p[1]] + 1] = c[pos + 1]
-                    pos += 2
+                    d = mk.ndim
+                    cond = cond & sbool(mk.at(*c[pos:pos + d]))
+                    for q in range(d):
+                        newc[offs[p[1]] + q] = c[pos + q]
+                    pos += d
                 elif p[0] == "keepmask":
-                    newc[offs[p[1]]] = c[pos]
-                    newc[offs[p[1]] + 1] = c[pos + 1]
-                    pos += 2
-                elif p[0] == "mask1":
-                    cond = cond & sbool(p[1].at(c[pos]))
-                    pos += 1
+                    d = new_axes[p[1]].ncomp
+                    for q in range(d):
+                        newc[offs[p[1]] + q] = c[pos + q]
+                    pos += d
             if cond.concrete:
                 return getv(tuple(newc)) if cond.t else old.at(*c)
             return _cast(ite(cond, getv(tuple(newc)), old.at(*c)), self.dtype)
